@@ -119,7 +119,9 @@ type vh10Srv struct {
 	dead bool
 }
 
+// net.Pipe is unbuffered: a frame nobody reads is dropped after a short while.
 func (s *vh10Srv) reply(tg uint16, m message) error {
+	s.c.SetWriteDeadline(time.Now().Add(400 * time.Millisecond))
 	return send(ulog.Null, s.c, tag(tg), m)
 }
 
@@ -174,6 +176,7 @@ func (s *vh10Srv) do(it vh10Item) {
 			s.reply(t, &rlopen{})
 		}
 	case "garbage":
+		s.c.SetWriteDeadline(time.Now().Add(400 * time.Millisecond))
 		s.c.Write([]byte{3, 0, 0, 0, 117, 1, 0})
 		s.dead = true
 		s.c.Close()
@@ -183,6 +186,7 @@ func (s *vh10Srv) do(it vh10Item) {
 	case "short":
 		if t, ok := s.tagOf(it.I); ok {
 			b := vhFrame(byte(msgRread), t, append(vhLE32(8), vh10Data(it.I)...))
+			s.c.SetWriteDeadline(time.Now().Add(400 * time.Millisecond))
 			s.c.Write(b[:9])
 		}
 		s.dead = true
@@ -364,7 +368,7 @@ func TestVerifC10(t *testing.T) {
 				s = append(s, vh10Item{K: kind, I: target})
 				later := vh10Phase{Calls: calls(k, k+1), Script: replies([]int{k})}
 				if vh10Fatal(kind) {
-					later = vh10Phase{Calls: []vh10Call{{I: k, Fail: false}}}
+					later = vh10Phase{Calls: []vh10Call{{I: k, Fail: false}}, Script: []vh10Item{{K: "close"}}} // the connection is dead: model it as closed
 				}
 				vh10Session(t, o, id, k+1, []vh10Phase{{Calls: calls(0, k), Script: s}, later}, "fault-"+kind)
 				id++
